@@ -2,7 +2,7 @@
 import itertools
 
 from .. import coqbuild, irtools as T
-from ..common import GLOBAL_TRUSTED_BASE
+from ..common import CORPUS_SEED, GLOBAL_TRUSTED_BASE
 from ..model import call_many
 from ..normtools import enc_def, enc_typ, state_of
 from ..pool import guarded, run_cases
@@ -65,8 +65,10 @@ def run_chain(arg):
 
 
 def worker(batch):
-    out = {"n": 0, "chains": 0, "items": [], "corr": [], "stable_chains": 0, "outside_model": 0, "compared": 0}
-    for ir, stable, chains in batch:
+    out = {"n": 0, "chains": 0, "items": [], "corr": [], "stable_chains": 0, "outside_model": 0, "compared": 0, "corpus_keys": []}
+    for entry in batch:
+        ir, stable, chains = entry[:3]
+        cid = entry[3] if len(entry) > 3 else None
         out["n"] += 1
         results = [guarded(run_chain, (ir, ch), 60) for ch in chains]
         # model: per parameter, per chain
@@ -85,8 +87,11 @@ def worker(batch):
         for ci, (ch, (st, r)) in enumerate(zip(chains, results)):
             out["chains"] += 1
             tag = "-".join(ch)
+            ckey = None if cid is None else "%s|%s" % (cid, tag)
+            if ckey:
+                out["corpus_keys"].append(ckey)
             if st != "ok":
-                out["items"].append(("C03/harness/" + st, {"chain": ch, "detail": r}, ir))
+                out["items"].append(("C03/harness/" + st, {"chain": ch, "detail": r, "corpus_key": ckey}, ir))
                 continue
             for f, its in r["hop_items"]:
                 for cls, det in its:
@@ -94,9 +99,9 @@ def worker(batch):
                         continue            # C03 compares names, order, types and defaults
                     if stable:
                         continue            # on the stable domain any difference is reported below, unconditionally
-                    out["items"].append(("C03/hop-%s/%s" % (f, cls), dict(det, chain=ch), ir))
+                    out["items"].append(("C03/hop-%s/%s" % (f, cls), dict(det, chain=ch, corpus_key=ckey), ir))
             if "raised" in r:
-                out["items"].append(("C03/raises/%s/%s" % (r["raised"][0], r["raised"][1]), {"chain": ch, "detail": r["raised"]}, ir))
+                out["items"].append(("C03/raises/%s/%s" % (r["raised"][0], r["raised"][1]), {"chain": ch, "detail": r["raised"], "corpus_key": ckey}, ir))
                 continue
             # correspondence hop by hop
             # Model/Norm.v speaks about (type, default) of a parameter whose description is the plain one it started with; once a
@@ -119,7 +124,7 @@ def worker(batch):
             if stable:
                 out["stable_chains"] += 1
                 if r["end"] != r["start"]:
-                    out["items"].append(("C03/stable-domain-drift", {"chain": ch, "start": r["start"], "end": r["end"]}, ir))
+                    out["items"].append(("C03/stable-domain-drift", {"chain": ch, "start": r["start"], "end": r["end"], "corpus_key": ckey}, ir))
     return out
 
 
@@ -136,6 +141,12 @@ def collect(ctx, n_ir, n3):
         if not ctx.quick:
             chains += [[rng.choice(FORMATS) for _ in range(rng.randint(4, 5))] for _ in range(6)]
         work.append((ir, stable, chains))
+    import random as _random
+    crng = _random.Random(CORPUS_SEED)
+    for i in range(60):
+        ir_c = gen_ir(crng, False)
+        if i < (6 if n_ir < 100 else 60):
+            work.append((ir_c, False, all2, "c%d" % i))
     # corpus: negative numbers and None defaults on every kind of type, all chains of length 2 and 3
     from collections import OrderedDict
     corpus_ir = {"name": "Thing", "doc": "Thing description.", "returns": None, "params": OrderedDict((
@@ -165,8 +176,9 @@ def collect(ctx, n_ir, n3):
         if "harness_error" in r:
             items.append(("C03/harness/error", {"detail": r}, None))
             continue
-        for k in agg:
+        for k in ("n", "chains", "stable_chains", "outside_model", "compared"):
             agg[k] += r[k]
+        agg.setdefault("corpus_keys", []).extend(r.get("corpus_keys", []))
         items += r["items"]
         corr += r["corr"][:3]
     return agg, items, corr, work
@@ -177,7 +189,7 @@ def run(ctx):
     agg, items, corr, work = collect(ctx, 12 if ctx.quick else 300, 40 if ctx.quick else 125)
     for cls, det, ir in items:
         ctx.item(cls, {"stage": "implementation chains (emit -> text -> parse at each hop)", "clause": cls, "input": T.jsonable(ir) if ir else None,
-                       "detail": det})
+                       "detail": det}, corpus_key=det.get("corpus_key") if isinstance(det, dict) else None)
     if not ctx.violations:
         if corr:
             ctx.violation({"stage": "correspondence: Model/Norm.v N vs one implementation hop", "detail": corr[:3],
